@@ -19,13 +19,14 @@ Every oracle works on the abstract content of the case: a set of
                exact <= strong <= weak.  Compared in exact rational arithmetic.
 """
 
+import numbers
 import random
 from collections import Counter
 from fractions import Fraction
 
 from hypothesis import strategies as st
 
-from ..engine import Clause, Violation, require
+from ..engine import Clause, require
 from ..strategies import universes
 
 ASSUMPTIONS = [
@@ -126,11 +127,11 @@ def check_degrees(case, ctx):
         exp_out = {n: sum(1 for k in es if n in k[1]) for n in nodes}
         for n in sorted(nodes, key=repr):
             got = in_degree(h, n, **f)
-            require(got == exp_in[n] and isinstance(got, int), lambda: (
+            require(got == exp_in[n] and isinstance(got, numbers.Integral), lambda: (
                 "in_degree(node=%r, %s) = %r, expected %d (hyperedges with the node in the source) "
                 "on %s" % (n, f, got, exp_in[n], _show(keys))), key="in_degree")
             got = out_degree(h, n, **f)
-            require(got == exp_out[n] and isinstance(got, int), lambda: (
+            require(got == exp_out[n] and isinstance(got, numbers.Integral), lambda: (
                 "out_degree(node=%r, %s) = %r, expected %d (hyperedges with the node in the target) "
                 "on %s" % (n, f, got, exp_out[n], _show(keys))), key="out_degree")
         for name, fn, exp in (("in_degree_sequence", in_degree_sequence, exp_in),
@@ -243,10 +244,10 @@ def check_reciprocity(case, ctx):
             % (what, sorted(g.keys()) if isinstance(g, dict) else g, M)), key="keys")
         for k in range(2, M + 1):
             v = g[k]
-            require(isinstance(v, (int, float)) and not isinstance(v, bool) and 0 <= v <= 1,
+            require(isinstance(v, numbers.Real) and not isinstance(v, bool) and 0 <= v <= 1,
                     lambda: "%s: value for size %d is %r, outside [0, 1]" % (what, k, v),
                     key="range")
-            require(abs(Fraction(v) - exp[name][k]) <= TOL, lambda: (
+            require(abs(Fraction(float(v)) - exp[name][k]) <= TOL, lambda: (
                 "%s: size %d gives %r, expected %s (%d hyperedges of that size within the bound)"
                 % (what, k, v, exp[name][k], tot[k])), key=name)
             if not tot[k]:
